@@ -561,6 +561,10 @@ class System:
                 return self.message("C", "kc", 2, i % 2, updated=[self.rs(rid, "p3", ["x", "y"])])
             return self.message("B", "kb", 0, 0, completed=[self.rs(rid, "p3", ["x", "y", "z"])])
         self.net.source = lambda: None if stop.is_set() else (_time.sleep(0.002), source())[1]
+        if any(f["role"] == "dist-main" and f["req"].startswith("alive:") for f in targets):
+            # the run loop itself waits for a thread: it gets there only when it is not busy dispatching (and not
+            # waiting for the decider on behalf of a remote message), so no peer sends anything in this attempt
+            self.net.source = lambda: None
 
         def loop(fn):
             def go():
@@ -592,11 +596,16 @@ class System:
         self.as_role("dist-incoming", free(self.dist._tcp_incoming), wait=False)
         self.as_role("dist-outgoing", free(self.dist._tcp_outgoing), wait=False)
         self.as_role("observer", loop(lambda: (self.getters(), _time.sleep(0.002))), wait=False)
-        if any(f["role"] == "control" for f in targets):
+        waits_for_thread = [f for f in targets if f["req"].startswith("alive:")]
+        if any(f["role"] == "control" for f in targets) or waits_for_thread:
             # the shutdown calls, each on its own thread (one may park or block), once the others had time to park
-            if any(f["role"] == "control" and f["req"].startswith("alive:") for f in targets):
+            if any(f["role"] == "control" for f in waits_for_thread):
                 # the cycle goes through join(): close() then join(), as a user shuts the component down
                 calls = (lambda: (self.dist.close(), self.dist.join()),)
+            elif waits_for_thread:
+                # a library thread itself waits for another thread to end (which it does once the component is
+                # closed): close() alone, the engine keeps running
+                calls = (self.dist.close,)
             else:
                 calls = (self.dist.close, self.engine.close, self.handler.close)
             for fn in calls:
